@@ -255,12 +255,16 @@ type OpSpec struct {
 	Type    string `json:"type"`
 	ValSeed uint64 `json:"val_seed"`
 	Mutate  int    `json:"mutate,omitempty"` // decode/query: 0 = well-formed, k>0 = k-th malformation
+	Poison  int    `json:"poison,omitempty"` // encode-type ops: 1 = enum number outside the enum, 2 = invalid UTF-8 string (the encode fails after producing output)
 }
 
 func (o OpSpec) String() string {
 	s := fmt.Sprintf("%s(%s,#%x", o.Kind, o.Type, o.ValSeed&0xffff)
 	if o.Mutate != 0 {
 		s += fmt.Sprintf(",bad%d", o.Mutate)
+	}
+	if o.Poison != 0 {
+		s += fmt.Sprintf(",poison%d", o.Poison)
 	}
 	return s + ")"
 }
@@ -374,6 +378,9 @@ func prepare(spec OpSpec) *Prepared {
 	}
 	p := &Prepared{Spec: spec, TI: ti}
 	m := newPopulated(ti, spec.ValSeed)
+	if spec.Poison != 0 {
+		poison(m, spec.Poison)
+	}
 	p.Msg = m.Interface()
 	switch spec.Kind {
 	case "decode":
@@ -395,6 +402,42 @@ func prepare(spec OpSpec) *Prepared {
 		p.Any = a
 	}
 	return p
+}
+
+// poison makes the message un-encodable in a way that is only discovered after
+// part of the output has been produced: the LAST suitable top-level field gets
+// an enum number outside the enum (1) or a string that is not valid UTF-8 (2).
+func poison(m protoreflect.Message, kind int) {
+	fields := m.Descriptor().Fields()
+	for i := fields.Len() - 1; i >= 0; i-- {
+		fd := fields.Get(i)
+		if fd.IsList() || fd.IsMap() || fd.ContainingOneof() != nil {
+			continue
+		}
+		if kind == 1 && fd.Kind() == protoreflect.EnumKind {
+			m.Set(fd, protoreflect.ValueOfEnum(9999))
+			return
+		}
+		if kind == 2 && fd.Kind() == protoreflect.StringKind {
+			m.Set(fd, protoreflect.ValueOfString("bad\xff\xfeutf8"))
+			return
+		}
+	}
+	// no suitable field of the requested kind: try the other kind
+	for i := fields.Len() - 1; i >= 0; i-- {
+		fd := fields.Get(i)
+		if fd.IsList() || fd.IsMap() || fd.ContainingOneof() != nil {
+			continue
+		}
+		if fd.Kind() == protoreflect.EnumKind {
+			m.Set(fd, protoreflect.ValueOfEnum(9999))
+			return
+		}
+		if fd.Kind() == protoreflect.StringKind {
+			m.Set(fd, protoreflect.ValueOfString("bad\xff\xfeutf8"))
+			return
+		}
+	}
 }
 
 func safeEncode(c *codec.Codec, m protoreflect.Message) (b []byte, err error) {
@@ -512,7 +555,14 @@ func execOp(e *Env, p *Prepared) (out Outcome) {
 		if err != nil {
 			return fail(err)
 		}
-		return Outcome{Class: "ok", Canon: a.TypeName + "/" + canonJSON(a.J5Json) + "/" + digest(a.Proto)}
+		// the wire bytes come from a plain proto.Marshal, whose field order is unspecified
+		// (and really varies for dynamicpb messages): compare the decoded message
+		pm := p.TI.Type.New().Interface()
+		pcanon := "undecodable:" + digest(a.Proto)
+		if err := proto.Unmarshal(a.Proto, pm); err == nil {
+			pcanon = canonProto(pm)
+		}
+		return Outcome{Class: "ok", Canon: a.TypeName + "/" + canonJSON(a.J5Json) + "/" + pcanon}
 	case "decode_any":
 		msg := p.TI.Type.New().Interface()
 		if e.codec == nil {
@@ -661,6 +711,9 @@ func genWorkload(seed uint64, deep bool) *Workload {
 		op := OpSpec{Kind: opKinds[rng.Intn(len(opKinds))], Type: ti.Name, ValSeed: rng.Uint64()}
 		if (op.Kind == "decode" || op.Kind == "query" || op.Kind == "decode_any") && rng.Bool(0.2) {
 			op.Mutate = 1 + rng.Intn(4) // failing operation by construction
+		}
+		if (op.Kind == "encode" || op.Kind == "encode_any" || op.Kind == "walk") && rng.Bool(0.12) {
+			op.Poison = 1 + rng.Intn(2) // failing encode: fails after part of the output was written
 		}
 		return op
 	}
